@@ -75,7 +75,7 @@ func runC06(ctx *core.Ctx, idx int) *core.Result {
 	matching := "@@\nvar x expression\n@@\n-bump(x)\n+bump(x + 1)\n"
 	var patches []string
 	guardedFollowUp := false
-	gk := 0
+	gk, dk := 0, 0
 	_ = gk
 	guardFilePkg, guardFileImp := "", "" // kind C: the package / the import the files have instead of the guarded one
 	switch kind {
@@ -148,7 +148,19 @@ func runC06(ctx *core.Ctx, idx int) *core.Result {
 			guardFilePkg, guardFileImp = "zzpkgname", "zzalias \"example.com/zz/named\""
 		}
 	case "D-near-miss":
-		patches = append(patches, "# near\n@@\nvar x expression\n@@\n-bump(x, 1)\n+bump(x + 1)\n")
+		// 1-3: the files differ from the pattern in a token that is optional in Go's syntax (the '...' of a spread call,
+		// the '=' of an alias declaration, the parentheses of a declaration group) and that the pattern does not have
+		dk = r.Intn(4)
+		switch dk {
+		case 0:
+			patches = append(patches, "# near\n@@\nvar x expression\n@@\n-bump(x, 1)\n+bump(x + 1)\n")
+		case 1:
+			patches = append(patches, "# near\n@@\nvar x expression\n@@\n-bump(x)\n+bumped(x)\n")
+		case 2:
+			patches = append(patches, "# near\n@@\n@@\n-type NmAlias NmBase\n+type NmAlias NmOther\n")
+		default:
+			patches = append(patches, "# near\n@@\n@@\n-var nmV = 1\n+var nmV = 2\n")
+		}
 	}
 	nf := 3 + r.Intn(6)
 	type fileInfo struct {
@@ -186,7 +198,16 @@ func runC06(ctx *core.Ctx, idx int) *core.Result {
 				plants = append(plants, gen.Plant{Kind: "decl", Text: "func tgtOther() {}"}, gen.Plant{Kind: "expr", Text: "bump(" + g.Atom() + ")"})
 			}
 		case "D-near-miss":
-			plants = append(plants, gen.Plant{Kind: "expr", Text: []string{"bump(a)", "bump(a, 2)", "bump(a, 1, 1)", "bumps(a, 1)"}[r.Intn(4)]})
+			switch dk {
+			case 0:
+				plants = append(plants, gen.Plant{Kind: "expr", Text: []string{"bump(a)", "bump(a, 2)", "bump(a, 1, 1)", "bumps(a, 1)"}[r.Intn(4)]})
+			case 1:
+				plants = append(plants, gen.Plant{Kind: "expr", Text: []string{"bump(xs...)", "bump(a, b)", "bump()", "bump(f(xs)...)"}[r.Intn(4)]})
+			case 2:
+				plants = append(plants, gen.Plant{Kind: "decl", Text: []string{"type NmAlias = NmBase", "type (\n\tNmAlias NmBase\n)", "type NmAlias[T any] NmBase"}[r.Intn(3)]})
+			default:
+				plants = append(plants, gen.Plant{Kind: "decl", Text: []string{"var (\n\tnmV = 1\n)", "const nmV = 1", "var nmV int = 1", "var nmV, nmW = 1, 1"}[r.Intn(4)]})
+			}
 		}
 		if r.Intn(5) == 0 && len(plants) == 0 && len(Corpus()) > 0 {
 			b, err := os.ReadFile(Corpus()[r.Intn(len(Corpus()))])
